@@ -53,12 +53,16 @@ class Ctx:
             from . import machine as mc
 
             known = None
+            refh = None
             try:
                 R = self.ref(which + "_tokenizer.json")
                 known = set(R.get("helpers", {})) | set(R.get("charref", {})) | {k.split("::")[-1] for k in R.get("not_tabulated", {})}
+                refh = R.get("helpers", {})
             except (OSError, ValueError):
                 pass
-            self._tables[which] = mc.tokenizer_tables(self.ast, which, known)
+            self._tables[which] = mc.tokenizer_tables(self.ast, which, known, refh)
+            if self._tables[which].get("folded"):
+                self.notes.append("%s tokenizer: reviewed straight-line helpers that no longer exist are recognised where their body is written out: %s" % (which, ", ".join(self._tables[which]["folded"])))
             if self._tables[which].get("inlined_new"):
                 self.notes.append("%s tokenizer: private methods not in the reviewed reference were inlined at their call sites: %s" % (which, ", ".join(self._tables[which]["inlined_new"])))
         return self._tables[which]
